@@ -46,7 +46,9 @@ func init() {
 			"case / a doubled slash, https on the TLS port, a DIRECTORY-style URL /dd (HEAD 404 or octet-stream, the Taskfile under one " +
 			"of three default names), its sibling /dd/inc.yml and /inc.yml (what './inc.yml' means from /dd/<name> and from /dd); before a " +
 			"step the cache may be DAMAGED (the .yaml swapped for another version / truncated / removed) or TORN (the .checksum, " +
-			".timestamp, .location of a killed approving invocation written without the .yaml); observed: exit code, which versions' " +
+			".timestamp, .location of a killed approving invocation written without the .yaml), and the step itself may run under a " +
+			"FILE-SIZE LIMIT (ulimit -f 1: the binary's own WriteChecksum / WriteTimestamp / WriteResolvedLocation succeed, its write of " +
+			"the longer .yaml fails like on a full disk - a real failure between the cache writes); observed: exit code, which versions' " +
 			"markers ran (trace file), cache files (content version, stored checksum, timestamp present, stored location) of every URL — " +
 			"compared with Remote.invoke over the same sequence; plus the property monitor (a marker ran ⇒ that version was offered " +
 			"under --yes or an accepted prompt at or before the step). Second stream (op remote.chain, 250 quick / 3000 thorough " +
@@ -92,6 +94,9 @@ type remStep struct {
 	Pre    string `json:"pre,omitempty"`
 	PreURL int    `json:"pre_url,omitempty"`
 	PreV   int    `json:"pre_v,omitempty"`
+	// the binary runs under `ulimit -f 1` (512 bytes): WriteChecksum, WriteTimestamp and WriteResolvedLocation succeed, the
+	// write of the (longer) .yaml fails like on a full disk — a REAL failure between the cache writes
+	Limited bool `json:"limited,omitempty"`
 	Inc     int    `json:"inc,omitempty"`
 	Server2 string `json:"server2,omitempty"`
 	V2      int    `json:"v2,omitempty"`
@@ -130,8 +135,12 @@ type remCase struct {
 const remURLs = 10
 const remStallDelay = 1200 * time.Millisecond
 
-// remGitURL: the model id of the git node (http://127.0.0.1:<blackhole>/r.git//Taskfile.yml); not among the listed entries
+// remGitURL, remGitProtoURL: the model ids of the git nodes (http://127.0.0.1:<blackhole>/r.git//Taskfile.yml and the same
+// over the git protocol, git://…); not among the listed entries
 const remGitURL = 16
+const remGitProtoURL = 17
+
+func remIsGit(u int) bool { return u == remGitURL || u == remGitProtoURL }
 
 var remPaths = []string{"/aa/Taskfile.yml", "/bb/Taskfile.yml", "/aa/Taskfile.yml", "/aa/Taskfile.yml?v=2", "/aa/taskfile.yml", "/aa//Taskfile.yml",
 	"/tt/Taskfile.yml", "/dd", "/dd/inc.yml", "/inc.yml"}
@@ -198,7 +207,15 @@ func remOwner(r *http.Request, tls bool) (exact, owner, name int) {
 
 // remContent: content number c = v + 10k of URL u; k = 0 is the plain Taskfile; otherwise it includes the URL
 // remIncTable[k] names (1,2,5,7 by a relative reference, 3,4,6,8 by an absolute one — needs the port); k = 7 is `./inc.yml`
+// remPad: every Taskfile the harness serves starts with more than 512 bytes of comments, so that under `ulimit -f 1`
+// the write of the .yaml fails (and what is left of it is not a Taskfile)
+var remPad = strings.Repeat("# "+strings.Repeat("padding ", 7)+"\n", 10)
+
 func remContent(u, c, port int) []byte {
+	return append([]byte(remPad), remContentBody(u, c, port)...)
+}
+
+func remContentBody(u, c, port int) []byte {
 	k := c / 10
 	if k == 9 { // two remote includes (siblings): URL 1 and URL 3
 		return []byte(fmt.Sprintf("version: '3'\nsilent: true\nincludes:\n  b: http://127.0.0.1:%d%s\n  c: http://127.0.0.1:%d%s\ntasks:\n  probe:\n    cmds:\n      - echo u%dv%d >> \"$VERIF_TRACE\"\n      - task: b:probe\n      - task: c:probe\n",
@@ -242,7 +259,7 @@ func (s remStep) norm() remStep {
 	if s.Age != 0 {
 		s.Age = 2
 	}
-	if (s.URL < 0 || s.URL >= remURLs) && s.URL != remGitURL {
+	if (s.URL < 0 || s.URL >= remURLs) && !remIsGit(s.URL) {
 		s.URL = 0
 	}
 	if s.V < 1 {
@@ -261,9 +278,12 @@ func (s remStep) norm() remStep {
 			s.DirHead = ""
 		}
 	}
-	if s.URL == remGitURL { // a git node: the harness has no git server, only a listener that never answers
+	if remIsGit(s.URL) { // a git node: the harness has no git server, only a listener that never answers
 		s.Via, s.Inc, s.Pre, s.Age, s.Patient, s.Clear, s.Download, s.Server2 = "root", 0, "", 0, false, false, false, ""
 		s.Server = "stall"
+	}
+	if remIsGit(s.URL) || s.Server2 != "" {
+		s.Limited = false
 	}
 	switch s.Pre {
 	case "swap", "torn1", "torn2", "torn3":
@@ -392,7 +412,7 @@ func remServerTok(u int, kind string, c int, s remStep) string {
 	switch {
 	case u == 2: // TLS handshake with a plain-http server (or no server): the fetch fails
 		return "f0"
-	case u == remGitURL: // the clone never gets an answer (or, listener closed, is refused: a plain error)
+	case remIsGit(u): // the clone never gets an answer
 		return base
 	case u == 6 && kind == "redirect":
 		return "r13.0:" + base
@@ -444,7 +464,7 @@ func remCaseLine(d remCase, picks []int) string {
 			fmt.Fprintf(&sb, " %s %d %s %d %d", remServerTok(1, s.Server2, s.V2+10*s.Inc2, s), answers[s.Answer2],
 				remServerTok(3, s.Server3, s.V3, s), answers[s.Answer3], pick)
 		}
-		fmt.Fprintf(&sb, " %d %d %d", pres[s.Pre], s.PreURL, s.PreV)
+		fmt.Fprintf(&sb, " %d %d %d %s", pres[s.Pre], s.PreURL, s.PreV, b2s(s.Limited))
 	}
 	return sb.String()
 }
@@ -877,6 +897,8 @@ func (rr *remRun) runCLI(s remStep, chain bool) (exit int, out string, err error
 	switch {
 	case s.URL == remGitURL:
 		args = append(args, "-t", rr.gitURL, "probe")
+	case s.URL == remGitProtoURL:
+		args = append(args, "-t", strings.Replace(rr.gitURL, "http://", "git://", 1), "probe")
 	case s.Via == "include":
 		args = append(args, "-t", fmt.Sprintf("inc%d.yml", s.URL), "r:probe")
 	default:
@@ -911,12 +933,15 @@ func (rr *remRun) runCLI(s remStep, chain bool) (exit int, out string, err error
 		}
 	}
 	limit := 40 * time.Second
-	if s.URL == remGitURL { // a git node that ignores --timeout never returns: that is a verdict, not a flake
+	if remIsGit(s.URL) { // a git node that ignores --timeout never returns: that is a verdict, not a flake
 		limit = 5 * time.Second
 	}
 	ctx, cancel := context.WithTimeout(context.Background(), limit)
 	defer cancel()
 	cmd := exec.CommandContext(ctx, bin, args...) // cancelled by Process.Kill (SIGKILL)
+	if s.Limited {
+		cmd = exec.CommandContext(ctx, "/bin/sh", append([]string{"-c", `ulimit -f 1 && exec "$0" "$@"`, bin}, args...)...)
+	}
 	cmd.Dir = rr.proj
 	cmd.Env = []string{"PATH=" + os.Getenv("PATH"), "HOME=" + filepath.Join(rr.dir, "home"), "NO_COLOR=1",
 		"TASK_REMOTE_DIR=" + rr.cache, "VERIF_TRACE=" + rr.trace, "SSL_CERT_FILE=" + rr.certFile}
@@ -1011,7 +1036,7 @@ func (rr *remRun) runCLI(s remStep, chain bool) (exit int, out string, err error
 		<-done
 	}
 	if ctx.Err() != nil {
-		if s.URL == remGitURL {
+		if remIsGit(s.URL) {
 			return -1, "", nil
 		}
 		return 0, "", errInconclusive{"task binary hung (killed)"}
@@ -1099,7 +1124,7 @@ func (rr *remRun) cacheView() string {
 		}
 		switch {
 		case strings.HasSuffix(name, ".yaml"):
-			if len(b) == 0 {
+			if len(b) <= 512 && bytes.HasPrefix([]byte(remPad), b) { // empty, or cut off by the file-size limit: not a Taskfile
 				v[u].c = "0"
 			} else {
 				v[u].c = which(func(c []byte) bool { return bytes.Equal(b, c) })
@@ -1449,6 +1474,7 @@ func (c *Ctx) remStep(prev *remStep, pty bool) remStep {
 	} else {
 		s.Patient = r.Intn(100) < 10
 	}
+	s.Limited = r.Intn(100) < 7
 	// now and then the cache is torn or damaged before the step: mostly the step's own entry
 	if r.Intn(100) < 14 {
 		s.Pre = []string{"swap", "swap", "trunc", "rm", "torn1", "torn1", "torn2", "torn3"}[r.Intn(8)]
@@ -1762,7 +1788,10 @@ func runRemote(c *Ctx) {
 		k := 1 + c.Rng.Intn(2)
 		for j := 0; j < k; j++ {
 			s := remStep{URL: remGitURL, Via: "root", Server: "stall", V: 1, Answer: "none", ExpiryOmit: true}
-			s.Insecure = c.Rng.Intn(100) < 80
+			if c.Rng.Intn(100) < 45 { // the plaintext git protocol
+				s.URL = remGitProtoURL
+			}
+			s.Insecure = c.Rng.Intn(100) < 65
 			s.Yes = c.Rng.Intn(2) == 0
 			s.Offline = c.Rng.Intn(100) < 15
 			s.NoExp = c.Rng.Intn(100) < 5
@@ -1798,6 +1827,12 @@ func runRemote(c *Ctx) {
 			c.Hit("answer:" + s.Answer)
 			c.Hit("via:" + s.Via)
 			c.Hit(fmt.Sprintf("url:%d", s.URL))
+			if s.Limited {
+				c.Hit("limited")
+				if j < len(steps) && strings.HasPrefix(steps[j], "err:1 ") {
+					c.Hit("limited:yaml-write-failed")
+				}
+			}
 			if s.Pre != "" {
 				c.Hit("pre:" + s.Pre)
 				if s.PreURL != s.URL {
